@@ -133,6 +133,12 @@ def run(ctx, config='rel-all'):
             else:
                 ctx.violation('R4', arena.short(body['id']), 'call(releaser):arg', '%s passes %s to the releaser, expected %s' % (key, show(arg)[:100], what), e.span)
     check_no_leak(ctx, A, 'R5', 4)
+    # ---- R7 a published chunk stays on the list until the releaser gets it: the list head only ever moves to a chunk
+    # acquired in the same call (shared with C01.R7); moving it back unlinks a chunk that is then never given back
+    from . import c01 as _c01
+    for key, v in A.items():
+        if v is not None:
+            _c01.check_ccf_stores(ctx, key, v[0], v[1], 'R7')
     # ---- R6 no destructors from reset/drop
     for key in ('drop', 'reset'):
         val = A.get(key)
